@@ -270,6 +270,9 @@ type Operator struct {
 	// (the file is still on the stick): resubmitted instead of re-processing
 	// when the node asks for the same operation again (e.g. after a crash)
 	results map[string][]byte
+	// RetryRefused: when the machine answers with a failure report the operator
+	// may feed the same file a second time and carry back the second answer
+	RetryRefused bool
 	// AlterOp, when set, rewrites the operation file on its way from the node
 	// to the machine (C12: the timestamps a node with a stepping clock would
 	// have written).
@@ -354,6 +357,11 @@ func (o *Operator) Handle(w *World, op *types.Operation) *APIResult {
 			return &APIResult{ErrMsg: "aborted"}
 		}
 	}
+	if a.Dead {
+		// the machine died while the operator was at it (an extra file fed by a
+		// scenario hook): the genuine file waits until the machine is back
+		return &APIResult{Crashed: true}
+	}
 	var res []byte
 	var err error
 	if cached, ok := o.results[op.ID]; ok && !o.Refeed {
@@ -370,6 +378,18 @@ func (o *Operator) Handle(w *World, op *types.Operation) *APIResult {
 		}
 		if res == nil { // machine crashed
 			return &APIResult{Crashed: true}
+		}
+		if o.RetryRefused && w.Tape.Bool(1, 2, "retryRefused?") {
+			// the machine answered with its failure report: the operator tries the
+			// same file once more before carrying anything back (same process, no
+			// restart in between) and takes whatever the second attempt says
+			var ro types.Operation
+			if json.Unmarshal(res, &ro) == nil && strings.Contains(string(ro.Event), "error") {
+				if res2, err2 := w.AirProcess(a, opJSON); err2 == nil && res2 != nil {
+					res = res2
+					w.Stats.Fault("refused-operation-fed-again")
+				}
+			}
 		}
 		if o.results == nil {
 			o.results = map[string][]byte{}
